@@ -25,7 +25,7 @@ def run_batch(cases, timeout=None, nproc=4):
         return []
     nproc = max(1, min(nproc, len(cases)))
     if timeout is None:
-        timeout = 120 + 20 * (len(cases) // nproc + 1)
+        timeout = 300 + 30 * (len(cases) // nproc + 1)
     chunks = [list(range(i, len(cases), nproc)) for i in range(nproc)]
     tmp = tempfile.mkdtemp(prefix="verif-schedb-", dir="/tmp")
     procs = []
@@ -399,6 +399,10 @@ def drive(ctx, name, spec_defs, n_async, n_sync, n_exh, rule, spec_note, fail_p=
     import time as _t
     t0 = _t.time()
     obs = run_batch(cases, nproc=nproc or (6 if ctx.tier == "thorough" else 4))
+    # cases the harness could not drive (watchdog under load, a dead interpreter) are retried once, alone
+    redo = [i for i, o in enumerate(obs) if o.get("outcome") not in ("ok", "error")]
+    for i, o in zip(redo, run_batch([cases[i] for i in redo], nproc=2) if redo else []):
+        obs[i] = o
     t1 = _t.time()
     bad, usable = evaluate(ctx, name, cases, obs, spec_defs, "spec_ok")
     t2 = _t.time()
